@@ -10,6 +10,12 @@ the `fmt dump` / `fmt load` correspondence streams.
 import Iodata.Lemmas.Fmt.Xyz
 import Iodata.Lemmas.Fmt.Sdf
 import Iodata.Lemmas.Fmt.Pdb
+import Iodata.Lemmas.Fmt.PdbConect
+import Iodata.Lemmas.Fmt.Fchk
+import Iodata.Lemmas.Fmt.Cube
+import Iodata.Lemmas.Fmt.Mol2
+import Iodata.Lemmas.Fmt.Fcidump
+import Iodata.Lemmas.Fmt.Poscar
 import Iodata.Gen.Layouts
 
 namespace Iodata.Props.C02
@@ -99,13 +105,9 @@ example : Sdf.load tables sdfL (Sdf.dump tables sdfL ⟨['t'], sdfC100 ++ sdfC10
 
 /-! ## PDB
 
-Full statement: `∀ o (every field fits its columns, bonds between existing atoms),
-  Pdb.load T L (Pdb.dump T L o) = .ok (Pdb.norm L o)` where `norm` keeps title and atoms and turns the
-bond list into `normBonds` (each unordered pair once, ordered by first atom; PDB stores no bond type).
-Proved: the ATOM record for every atom (`pdb_atom_record`), and whole files without CONECT records
-(`pdb_load_dump_partial`).  Missing: the CONECT writer/reader loop (chunks of four, both directions) is
-modelled and executed in the correspondence (`dump:pdb`, `load:pdb` compare whole files with bonds byte
-for byte) but its round trip is not proved. -/
+`norm` keeps title and atoms and turns the bond list into `normBonds` (each unordered pair once, as
+`(a, b)` with `a < b`, ordered by first atom then by the order in which the writer met the partner; a bond
+listed twice stays listed twice; PDB stores no bond type). -/
 
 /-- PDB: the ATOM record written for any atom whose fields fit their columns (name ≤ 4, residue ≤ 3,
 resSeq ≤ 4 characters incl. sign, x/y/z in `8.3f`, occupancy/B in `6.2f`, serial ≤ 5 digits) is cut by
@@ -115,15 +117,39 @@ theorem pdb_atom_record (T : Tables) (L : Pdb.Layout) (hL : Pdb.LayoutOK L) (ser
     Pdb.parseAtom T L (Pdb.dumpAtom T L serial a) = .ok a :=
   Pdb.parseAtom_dumpAtom T L hL serial a hser ha
 
-/-- PDB, partial (no CONECT records): the written file is read back as the object, for any number of
-atoms the serial column holds. -/
-theorem pdb_load_dump_partial (T : Tables) (L : Pdb.Layout) (hL : Pdb.LayoutOK L) (o : Pdb.Obj) (h : Pdb.Dom T L o) :
-    Pdb.load T L (Pdb.dump T L o) = .ok (Pdb.norm L o) :=
-  Pdb.load_dump T L hL o h
+/-- PDB: the written file — TITLE and COMPND records of any number of lines (continuation numbers 2, 3, …, 10, … right-
+justified up to column ten and one blank), ATOM records, CONECT records (every bond in both directions, at most four
+partners per record, an extra record without partners when the count is a multiple of four), END — is read back
+as the object with its bonds de-duplicated, for any number of atoms the serial columns hold and any list of
+bonds between existing atoms (repeated bonds, any order, any number of partners per atom); multi-line titles and
+compounds come back line by line. -/
+theorem pdb_load_dump (T : Tables) (L : Pdb.Layout) (hL : Pdb.LayoutOK L) (hC : Pdb.ConectOK L) (o : Pdb.Obj)
+    (h : Pdb.DomB T L o) : Pdb.load T L (Pdb.dump T L o) = .ok (Pdb.norm L o) :=
+  Pdb.load_dump_bonds T L hL hC o h
+
+/-- PDB: one CONECT record with at most four partners is read as the bonds to the partners with a larger index. -/
+theorem pdb_conect_record (L : Pdb.Layout) (hC : Pdb.ConectOK L) (a : Nat) (others : List Nat)
+    (ha : (natToDec (a + 1)).length ≤ L.conW) (hlen : others.length ≤ 4)
+    (hfit : ∀ b ∈ others, (natToDec (b + 1)).length ≤ L.conW) :
+    Pdb.parseConect L (Pdb.conectLine L a others) = .ok ((others.filter (a < ·)).map fun b => (a, b)) :=
+  Pdb.parseConect_conectLine L hC a others ha hlen hfit
+
+/-- PDB: objects of the domain are written, not refused. -/
+theorem pdb_written_not_refused (T : Tables) (L : Pdb.Layout) (o : Pdb.Obj) (h : Pdb.DomB T L o) :
+    Pdb.dumpE T L o = .ok (Pdb.dump T L o) := by
+  unfold Pdb.dumpE
+  have h1 : (o.atoms.all fun a => (T.sym? a.zn).isSome) = true := by
+    rw [List.all_eq_true]; intro a ha
+    obtain ⟨s, hs, _⟩ := Pdb.okZ_spec (h.2.2.2.2.2.1 a ha).1
+    simp [hs]
+  have h2 : (o.bonds.all fun b => decide (b.1 < o.atoms.length) && decide (b.2 < o.atoms.length)) = true := by
+    rw [List.all_eq_true]; intro b hb
+    simp [h.2.2.2.2.2.2.2.2 b hb]
+  simp [h1, h2]
 
 /-- PDB: the layout in the source satisfies the side conditions: the writer's ATOM columns are the
 reader's slices; every element symbol fits the two element columns and is mapped back. -/
-theorem pdb_layout_ok : Pdb.LayoutOK pdbL ∧ ∀ z ∈ List.range' 1 118, Pdb.okZ tables z = true := by
+theorem pdb_layout_ok : Pdb.LayoutOK pdbL ∧ Pdb.ConectOK pdbL ∧ ∀ z ∈ List.range' 1 118, Pdb.okZ tables z = true := by
   decide +kernel
 
 /-- PDB: the writer and the reader in the source have the fields / slices the model uses. -/
@@ -144,9 +170,235 @@ theorem pdb_conect_examples :
     Pdb.parseConect pdbL (Pdb.conectLine pdbL 5 [99998, 0, 6, 12344]) = .ok [(5, 99998), (5, 6), (5, 12344)] := by
   decide +kernel
 
-/-- non-vacuity at the column boundaries: x = −999.999, y = 9999.999, resSeq −999 and 9999, B = 999.99. -/
-example : Pdb.Dom tables pdbL ⟨[], [⟨17, ['C','l','1','2'], ['A','B','C'], 'A', -999, ⟨true, 999999⟩, ⟨false, 9999999⟩,
-    ⟨true, 0⟩, ⟨false, 100⟩, ⟨false, 99999⟩⟩, ⟨1, [], [], ' ', 9999, ⟨false, 0⟩, ⟨false, 1⟩, ⟨true, 1⟩, ⟨true, 999⟩, ⟨false, 0⟩⟩], []⟩ := by
+/-- non-vacuity at the column boundaries: x = −999.999, y = 9999.999, resSeq −999 and 9999, B = 999.99;
+bonds in both orders, a repeated bond, an atom with exactly four partners (extra empty record) and one with five. -/
+example : Pdb.DomB tables pdbL ⟨[], [⟨17, ['C','l','1','2'], ['A','B','C'], 'A', -999, ⟨true, 999999⟩, ⟨false, 9999999⟩,
+    ⟨true, 0⟩, ⟨false, 100⟩, ⟨false, 99999⟩⟩, ⟨1, [], [], ' ', 9999, ⟨false, 0⟩, ⟨false, 1⟩, ⟨true, 1⟩, ⟨true, 999⟩, ⟨false, 0⟩⟩],
+    [(0, 1), (1, 0), (0, 1), (0, 1), (1, 0)], some ['a','\n','b','\n','\n','c']⟩ := by
   decide +kernel
+
+/-- non-vacuity of the chunking: four partners give a full record plus an empty one, five give 4 + 1. -/
+example : Pdb.dumpConect pdbL 6 [(0, 1), (0, 2), (0, 3), (0, 4)] =
+    ["CONECT    1    2    3    4    5\n".toList, "CONECT    1\n".toList, "CONECT    2    1\n".toList,
+     "CONECT    3    1\n".toList, "CONECT    4    1\n".toList, "CONECT    5    1\n".toList] ∧
+    (Pdb.dumpConect pdbL 6 [(0, 1), (0, 2), (0, 3), (0, 4), (5, 0)]).take 2 =
+    ["CONECT    1    2    3    4    5\n".toList, "CONECT    1    6\n".toList] := by decide +kernel
+
+/-- non-vacuity of the continuation records: a twelve-line title is written with the numbers 2 … 12 ending in column ten. -/
+example : (Pdb.multiLines pdbL Pdb.kTitle "a\nb\nc\nd\ne\nf\ng\nh\ni\nj\nk\nl".toList).drop 8 =
+    ["TITLE    9 i\n".toList, "TITLE   10 j\n".toList, "TITLE   11 k\n".toList, "TITLE   12 l\n".toList] := by decide +kernel
+
+end Iodata.Props.C02
+
+namespace Iodata.Props.C02
+open Iodata.Chars Iodata.Decimal Iodata.Fmt Iodata.Gen.Layouts
+
+/-! ## Scientific notation (shared by FCHK, Cube, FCIDUMP) -/
+
+/-- `float(pad + f"{x: w.dE}" + pad')` is the printed mantissa/exponent pair: every sign (`-0.0` included), every
+mantissa of `d+1` digits, every exponent (two or more digits), with or without the `' '` flag, `E` or `e`. -/
+theorem sci_roundtrip (sp up : Bool) (w d : Nat) (x : Sci) (hd : 0 < d) (hm : x.man < 10 ^ (d + 1)) (q : Str) (hq : AllWs q) :
+    pySci d (fmtSci sp up w d x ++ q) = some x :=
+  pySci_fmtSci sp up w d x hd hm q hq
+
+/-! ## FCHK, field layer -/
+
+/-- FCHK: a file made of the two header lines and any list of fields (integer/real scalars, integer/real arrays of any
+length ≥ 0 — six integers or five reals per line, ragged last line —, distinct labels of at most 40 characters) is read
+back by `_load_fchk_low` + the header part of `load_one` as written: same labels, same values in the same order, arrays
+of length zero left out (the writer skips them), title defaulted, level of theory and basis name lower-cased, run type
+mapped through the writer's and the reader's tables. -/
+theorem fchk_load_dump (L : Fchk.Layout) (hL : Fchk.LayoutOK L) (R : Fchk.RunTypes) (hR : Fchk.RunTypesOK L R)
+    (keep : Str → Bool) (o : Fchk.Obj) (h : Fchk.Dom L o) (hk : ∀ f ∈ o.fields, keep f.1 = true) :
+    Fchk.load L.reader R keep (Fchk.dump L R o) = .ok (Fchk.norm L R o) :=
+  Fchk.load_dump L hL R hR keep o h hk
+
+/-- FCHK: array lines for ALL sizes: the lines hold the elements in order, none is empty, none has more than `k`
+elements, and their lengths are `k, …, k, (n-1) mod k + 1`. -/
+theorem fchk_chunks (α : Type) (k : Nat) (hk : 0 < k) (l : List α) (hne : l ≠ []) :
+    (Fchk.chunks k l).flatten = l ∧ (∀ ch ∈ Fchk.chunks k l, ch ≠ [] ∧ ch.length ≤ k) ∧
+    (Fchk.chunks k l).map List.length = List.replicate ((l.length - 1) / k) k ++ [(l.length - 1) % k + 1] :=
+  ⟨(Fchk.chunks_spec k hk l hne).1, (Fchk.chunks_spec k hk l hne).2, Fchk.chunkF_lengths k hk l.length l (Nat.le_refl _) hne⟩
+
+/-- FCHK: `arr[np.tril_indices(n)]` applied to `_triangle_to_dense(t)` gives `t` back, for every matrix size `n`
+(Hessian, polarizability, density matrices); the dense matrix is symmetric. -/
+theorem fchk_tril_dense (α : Type) (d : α) (n : Nat) (t : List α) (h : t.length = n * (n + 1) / 2) :
+    Fchk.tril (Fchk.dense d n t) = t ∧
+    ∀ i j, ((Fchk.dense d n t).getD i []).getD j d = ((Fchk.dense d n t).getD j []).getD i d :=
+  ⟨Fchk.tril_dense d n t h, Fchk.dense_symm d n t⟩
+
+/-- FCHK: the quadrupole index vector of the reader undoes the one of the writer (both extracted from the source):
+`q[W][R] = q` for every six-component moment. -/
+theorem fchk_quadrupole_inverse (α : Type) (d a b c e f g : α) :
+    Fchk.pick d fchkQuadR (Fchk.pick d fchkQuadW [a, b, c, e, f, g]) = [a, b, c, e, f, g] := by
+  rfl
+
+/-- FCHK: the writer's order is XX, YY, ZZ, XY, XZ, YZ of an alphabetically stored quadrupole (xx, xy, xz, yy, yz, zz). -/
+theorem fchk_quadrupole_order : fchkQuadW = [0, 3, 5, 1, 2, 4] ∧ fchkQuadW.length = 6 ∧ fchkQuadR.length = 6 := by decide
+
+/-- FCHK: the layout and the run-type tables in the source satisfy the side conditions: the label is cut where the writer
+ends it, every command the writer emits is one word that the reader maps back (`opt` → `FOpt` → `opt`, …). -/
+theorem fchk_layout_ok : Fchk.LayoutOK fchkL ∧ Fchk.RunTypesOK fchkL fchkRunTypes ∧
+    ∀ e ∈ fchkRunTypes.writer, lookupK fchkRunTypes.reader e.2 = some e.1 := by decide +kernel
+
+/-- FCHK: the four field writers and the field reader in the source have the shape the model assumes. -/
+theorem fchk_source_shape :
+    fchk_writes.filter (fun w => w.1 != "dump_one".toList) = Fchk.expectedWrites fchkL ∧
+    fchk_slices = [⟨"_load_fchk_field".toList, "label".toList, 0, some fchkL.cut, false⟩,
+                   ⟨"_load_fchk_field".toList, "words".toList, fchkL.cut, none, false⟩] := by decide +kernel
+
+/-- non-vacuity: scalars, arrays of 5, 6, 7 and 0 elements, a negative number with a two-digit exponent in every column,
+`opt` as run type. -/
+example : Fchk.Dom fchkL ⟨['t'], some ['o','p','t'], some ['h','f'], none,
+    [(['N'], .int (-12)), (['E',' ','x'], .real ⟨true, 123456789, -99⟩),
+     (['A'], .ints [1, -2, 3, 4, 5, 6, 7]), (['B'], .reals (List.replicate 6 ⟨true, 999999999, 99⟩)), (['C'], .reals []),
+     (['D'], .ints [0, 0, 0, 0, 0])]⟩ := by decide +kernel
+
+example : Fchk.load fchkL.reader fchkRunTypes (fun _ => true) (Fchk.dump fchkL fchkRunTypes
+      ⟨[], some ['o','p','t'], some ['H','f'], none, [(['A'], .ints [1, -2, 3, 4, 5, 6, 7]), (['C'], .reals [])]⟩)
+    = .ok ⟨fchkL.defaultTitle, some ['o','p','t'], ['h','f'], some ['n','a'], [(['A'], .ints [1, -2, 3, 4, 5, 6, 7])]⟩ := by
+  decide +kernel
+
+end Iodata.Props.C02
+
+namespace Iodata.Props.C02
+open Iodata.Chars Iodata.Decimal Iodata.Fmt Iodata.Gen.Layouts
+
+/-! ## Cube -/
+
+/-- Cube: the written file — title, comment line, origin, three axis lines, one line per atom, then the grid values six per
+line with a new line at the start of every row of `shape[2]` values — is read back as the object: every shape (also
+`shape[2] % 6 ≠ 0`, also empty grids), any number of atoms, header numbers of any magnitude and sign, every value.
+`norm` fills in the default title and replaces a core charge of exactly zero by the atomic number (the reader's heuristic;
+`cube_ghost_atom_violated` below). -/
+theorem cube_load_dump (L : Cube.Layout) (hL : Cube.LayoutOK L) (o : Cube.Obj) (h : Cube.Dom L o) :
+    Cube.load L (Cube.dump L o) = .ok (Cube.norm L o) :=
+  Cube.load_dump L hL o h
+
+/-- Cube: the data lines hold the values in order and no line is empty, for every row length (ragged rows included). -/
+theorem cube_data_lines (L : Cube.Layout) (hL : Cube.LayoutOK L) (bs : Nat) (hbs : 0 < bs) (data : List Sci) :
+    (Cube.dataChunks L bs data).flatten = data ∧ ∀ ch ∈ Cube.dataChunks L bs data, ch ≠ [] :=
+  Cube.dataChunks_spec L hL bs hbs data
+
+/-- Cube: away from zero core charges the round trip changes nothing but an empty title. -/
+theorem cube_norm_identity (L : Cube.Layout) (o : Cube.Obj) (hq : ∀ a ∈ o.atoms, a.q.mag ≠ 0) (ht : o.title ≠ []) :
+    Cube.norm L o = o := by
+  have h1 : o.atoms.map (Cube.normAtom L) = o.atoms := by
+    conv => rhs; rw [← List.map_id o.atoms]
+    apply List.map_congr_left
+    intro a ha
+    simp [Cube.normAtom, hq a ha]
+  have h2 : Cube.outTitle L o.title = o.title := by
+    cases e : o.title with
+    | nil => exact absurd e ht
+    | cons _ _ => rfl
+  simp [Cube.norm, h1, h2]
+
+/-- Cube (known finding `cube:ghost-atom-core-charge`, proved on the model): a ghost atom (Z = 1, core charge 0) is
+written with `0.000000` in the second column and comes back with core charge 1. -/
+theorem cube_ghost_atom_violated :
+    Cube.load cubeL (Cube.dump cubeL ⟨['g'], ⟨⟨false, 0⟩, ⟨false, 0⟩, ⟨false, 0⟩⟩, [1, 1, 1],
+        [⟨⟨false, 1000000⟩, ⟨false, 0⟩, ⟨false, 0⟩⟩, ⟨⟨false, 0⟩, ⟨false, 1000000⟩, ⟨false, 0⟩⟩, ⟨⟨false, 0⟩, ⟨false, 0⟩, ⟨false, 1000000⟩⟩],
+        [⟨1, ⟨false, 0⟩, ⟨false, 0⟩, ⟨false, 0⟩, ⟨false, 0⟩⟩], [⟨false, 100000, 0⟩]⟩)
+      = .ok ⟨['g'], ⟨⟨false, 0⟩, ⟨false, 0⟩, ⟨false, 0⟩⟩, [1, 1, 1],
+        [⟨⟨false, 1000000⟩, ⟨false, 0⟩, ⟨false, 0⟩⟩, ⟨⟨false, 0⟩, ⟨false, 1000000⟩, ⟨false, 0⟩⟩, ⟨⟨false, 0⟩, ⟨false, 0⟩, ⟨false, 1000000⟩⟩],
+        [⟨1, ⟨false, 1000000⟩, ⟨false, 0⟩, ⟨false, 0⟩, ⟨false, 0⟩⟩], [⟨false, 100000, 0⟩]⟩ := by decide +kernel
+
+/-- Cube: layout side conditions and the shape of the writer in the source. -/
+theorem cube_layout_ok : Cube.LayoutOK cubeL ∧ cube_writes = Cube.expectedWrites cubeL := by decide +kernel
+
+def cubeVals (n : Nat) : List Sci := (List.range n).map fun k => ⟨k % 2 == 1, 100000 + k, (k : Int) - 3⟩
+
+/-- Cube: the writer's counter loop (`counter % 6 == 5`, the reset at the end of a row when `shape[2] % 6 ≠ 0`) produces
+exactly the lines of the closed form the theorems speak about — checked by computation for every row length 1 … 14 and
+1 … 3 rows (the driver runs both on every generated case as well). -/
+theorem cube_loop_is_closed_form :
+    ∀ bs ∈ List.range' 1 14, ∀ rows ∈ [1, 2, 3],
+      Cube.dataLoop cubeL bs 0 (cubeVals (bs * rows)) = (Cube.dataLines cubeL bs (cubeVals (bs * rows))).flatten := by
+  decide +kernel
+
+/-- non-vacuity: a 2 × 1 × 7 grid (row length 7: lines of 6 + 1), two atoms, negative and wide header numbers. -/
+example : Cube.Dom cubeL ⟨[], ⟨⟨true, 123456789012⟩, ⟨false, 0⟩, ⟨true, 0⟩⟩, [2, 1, 7],
+    [⟨⟨false, 1⟩, ⟨false, 0⟩, ⟨false, 0⟩⟩, ⟨⟨false, 0⟩, ⟨true, 5⟩, ⟨false, 0⟩⟩, ⟨⟨false, 0⟩, ⟨false, 0⟩, ⟨false, 999999999⟩⟩],
+    [⟨8, ⟨false, 6000000⟩, ⟨true, 1⟩, ⟨false, 2⟩, ⟨false, 3⟩⟩, ⟨1, ⟨false, 1000000⟩, ⟨false, 0⟩, ⟨false, 0⟩, ⟨false, 0⟩⟩],
+    cubeVals 14⟩ := by decide +kernel
+
+end Iodata.Props.C02
+
+namespace Iodata.Props.C02
+open Iodata.Chars Iodata.Decimal Iodata.Fmt Iodata.Gen.Layouts
+
+/-! ## MOL2 -/
+
+/-- MOL2: the written file (comment, blank lines, MOLECULE record with title and counts, ATOM records, optional BOND
+records) is read back as the object: any number of atoms and bonds (no column limits: every field is blank separated),
+every element, coordinates and charges of any magnitude and sign, any blank-free atom type, every bond type of the table
+(others come back as `un`); absent atom types come back as the element symbol, absent charges as 0. -/
+theorem mol2_load_dump (T : Tables) (L : Mol2.Layout) (hL : Mol2.LayoutOK T L) (o : Mol2.Obj) (h : Mol2.Dom T L o) :
+    Mol2.load T L (Mol2.dump T L o) = .ok (Mol2.norm T L o) :=
+  Mol2.load_dump T L hL o h
+
+/-- MOL2: objects with known elements are written, not refused. -/
+theorem mol2_written_not_refused (T : Tables) (L : Mol2.Layout) (o : Mol2.Obj) (h : Mol2.Dom T L o) :
+    Mol2.dumpE T L o = .ok (Mol2.dump T L o) := by
+  unfold Mol2.dumpE
+  have : (o.atoms.all fun a => (T.sym? a.zn).isSome) = true := by
+    rw [List.all_eq_true]; intro a ha
+    obtain ⟨s, hs, _⟩ := Mol2.okZ_spec (h.2.1 a ha).1
+    simp [hs]
+  simp [this]
+
+/-- MOL2: layout side conditions, all 118 elements are recognised from their symbol, every bond type name maps back,
+and the writer in the source has the shape the model assumes. -/
+theorem mol2_layout_ok : Mol2.LayoutOK tables mol2L ∧ (∀ z ∈ List.range' 1 118, Mol2.okZ tables z = true) ∧
+    mol2_writes = Mol2.expectedWrites mol2L := by decide +kernel
+
+/-- non-vacuity: wide and negative coordinates, a long atom type, absent type/charge, every kind of bond type. -/
+example : Mol2.Dom tables mol2L ⟨[], [⟨17, ⟨true, 123456789012345⟩, ⟨false, 0⟩, ⟨true, 0⟩, some "Cl.very.long".toList, some ⟨true, 12345⟩⟩,
+    ⟨1, ⟨false, 1⟩, ⟨false, 2⟩, ⟨false, 3⟩, none, none⟩], some [⟨0, 1, 1⟩, ⟨1, 0, 4⟩, ⟨0, 1, 99⟩]⟩ := by decide +kernel
+
+/-! ## FCIDUMP, index layer of the two-electron integrals -/
+
+/-- FCIDUMP: for every number of orbitals and every 8-fold symmetric array, the array the reader rebuilds
+(`set_four_index_element(two_mo, ii, ik, ij, il, value)` per line, starting from zeros) from the lines of the writer's canonical
+loop (`i1 ≤ i0`, `i3 ≤ i2`, `i0(i0+1)/2+i1 ≥ i2(i2+1)/2+i3`, zeros skipped, chemists' `(i0 i1|i2 i3)` = physicists'
+`[i0, i2, i1, i3]`) equals the written array at every position: nothing permuted, nothing lost, no element attached to a
+different index quadruple. -/
+theorem fcidump_two_electron_roundtrip (α : Type) [DecidableEq α] (zero : α) (n : Nat) (T : Helpers.Idx → α) (h : Fcidump.Sym T)
+    (p : Helpers.Idx) (hp : p.1 < n ∧ p.2.1 < n ∧ p.2.2.1 < n ∧ p.2.2.2 < n) :
+    Fcidump.fill zero (Fcidump.entries zero n T) p = T p :=
+  Fcidump.fill_entries zero n T h p hp
+
+/-- FCIDUMP: the writer's loop emits exactly the canonical index quadruples with a non-zero element, all inside the array. -/
+theorem fcidump_loop_spec (α : Type) [DecidableEq α] (zero : α) (n : Nat) (T : Helpers.Idx → α) (e : Fcidump.Entry α) :
+    e ∈ Fcidump.entries zero n T ↔ e.i0 < n ∧ e.i1 ≤ e.i0 ∧ e.i2 < n ∧ e.i3 ≤ e.i2 ∧
+      Fcidump.tri e.i0 + e.i1 ≥ Fcidump.tri e.i2 + e.i3 ∧ T (e.i0, e.i2, e.i1, e.i3) ≠ zero ∧ e.v = T (e.i0, e.i2, e.i1, e.i3) :=
+  Fcidump.mem_entries zero n T e
+
+/-- non-vacuity: two orbitals give the six canonical quadruples in the writer's order. -/
+example : (Fcidump.entries (0 : Int) 2 (fun _ => 1)).map (fun e => (e.i0, e.i1, e.i2, e.i3)) =
+    [(0, 0, 0, 0), (1, 0, 0, 0), (1, 0, 1, 0), (1, 1, 0, 0), (1, 1, 1, 0), (1, 1, 1, 1)] := by decide
+
+/-! ## POSCAR, structure layer -/
+
+/-- POSCAR: the documented re-ordering — atoms grouped by element, heaviest first — is a permutation of the atoms (none
+lost, none duplicated, each keeps its own coordinates), keeps the original order inside every element, and the element
+and count lines expand (in the reader) to exactly the atomic numbers of the written sequence. -/
+theorem poscar_grouping (α : Type) (key : α → Nat) (atoms : List α) :
+    (Poscar.group key atoms).Perm atoms ∧
+    (∀ z, (Poscar.group key atoms).filter (fun a => key a == z) = atoms.filter (fun a => key a == z)) ∧
+    (Poscar.group key atoms).map key = Poscar.expand (Poscar.counts key atoms) ∧
+    (Poscar.uniqDesc (atoms.map key)).Pairwise (· > ·) :=
+  ⟨Poscar.group_perm key atoms, Poscar.group_stable key atoms, Poscar.group_keys key atoms, Poscar.uniqDesc_sorted _⟩
+
+/-- POSCAR: direct coordinates.  In exact arithmetic the reader's `frac · cell` undoes the writer's `inv(cell)ᵀ · r` for every
+cell with non-zero determinant (explicit 3×3 adjugate), so any deviation of the real code is floating-point round-off only. -/
+theorem poscar_fractional_roundtrip (cell : Poscar.M3) (h : Poscar.det cell ≠ 0) (r : Poscar.V3) :
+    Poscar.toCart cell (Poscar.toFrac cell r) = r :=
+  Poscar.toCart_toFrac cell h r
+
+/-- non-vacuity: Z = [1, 8, 1, 6, 8] is written in the order O O C H H = atoms 1, 4, 3, 0, 2. -/
+example : Poscar.group (fun (a : Nat × Nat) => a.1) [(1, 0), (8, 1), (1, 2), (6, 3), (8, 4)] = [(8, 1), (8, 4), (6, 3), (1, 0), (1, 2)] ∧
+    Poscar.counts (fun (a : Nat × Nat) => a.1) [(1, 0), (8, 1), (1, 2), (6, 3), (8, 4)] = [(8, 2), (6, 1), (1, 2)] := by decide
 
 end Iodata.Props.C02
